@@ -7,6 +7,11 @@
      - the exhaustive token-string universes TokenStringAt(Tok20, <=4/5) and (Tok31, <=3/4), no std,
      - seeded mutations of the corpus (/repo/tests/**/*.sy, /repo/std/*.sy), with and without std,
      - multi-file projects served from memory (missing/cyclic/colliding imports, std names, arbitrary text),
+     - the index-addressed families of STRUCTURED programs defined in SyltPipeline and emitted by TLC (MC_Families):
+       nest / nestraw / nestsolo (every nestable construct in itself and in every other, depths 8..32, trailing and
+       not, well typed and with a planted type error), place (top-level-only statements at every inner position x
+       what else the name is; inner-only statements at the top level), cyc (import cycles whose files have syntax
+       errors), selfty (self-referential inferred types in a type error),
    and writes one event list per input. TLC (Trace_Pipeline) re-derives the token strings from their
    indices, validates every event list as a COMPLETE behaviour of SyltPipeline with all invariants
    evaluated in every state, and prints one REJECT line per run that is not. Those lines are the verdicts.
@@ -24,8 +29,9 @@ import vlib
 
 PID = "C07"
 TRACE_ACTIONS = ("TraceStart", "TraceParseOk", "TraceRetErr", "TraceRetOk", "TraceRender", "TraceFinish", "TraceAccept")
-UNIVERSE_PRIORITY = {"tok20.top": 0, "tok20.body": 0, "tok31.body": 1, "tok31.raw": 1, "tok31.top": 1, "proj": 2, "mut-sys": 3, "mut": 4,
-                     "replay": 5}
+UNIVERSE_PRIORITY = {"tok20.top": 0, "tok20.body": 0, "tok31.body": 1, "tok31.raw": 1, "tok31.top": 1, "fam": 2, "proj": 2, "mut-sys": 3,
+                     "mut": 4, "replay": 5}
+FAMILIES = ("nest", "nestraw", "nestsolo", "place", "cyc", "selfty")
 
 
 class Run:
@@ -43,7 +49,8 @@ class Run:
         self.rejected = []      # (universe name, trace record, reject payload, case or None)
         self.samples = []
         self.sample_keys = set()
-        self.isolation = {"suspected": 0, "timeouts": 0, "aborts": 0, "batches": 0}
+        self.isolation = {"suspected": 0, "timeouts": 0, "aborts": 0, "batches": 0, "notrun": 0}
+        self.notrun = 0
 
 
 def record_universe(wd, args, name, env=None):
@@ -76,8 +83,9 @@ def tlc_validate(wd, name, universe, maxlen, workers=None, timeout=3000, sub=Non
     return r, rejects, uni
 
 
-def absorb(run, wd, name, label, r, rejects, uni, tok, keep_samples=2):
-    """Stream the trace once: statistics, the rejected records, a few samples."""
+def absorb(run, wd, name, label, r, rejects, uni, tok, keep_samples=2, fam=False, classify=None):
+    """Stream the trace once: statistics, the rejected records, a few samples.
+    classify(rec, outcome key) -> name of a guard cell, counted in the universe's `cells`."""
     trace = os.path.join(wd, name + ".trace.ndjson")
     cases_path = os.path.join(wd, name + ".cases.ndjson")
     want_cases = {}
@@ -85,6 +93,8 @@ def absorb(run, wd, name, label, r, rejects, uni, tok, keep_samples=2):
     nontrivial = 0
     outcomes = {}
     kinds = {}
+    cells = {}
+    slowest = []
     rej_recs = {}
     with open(trace) as f:
         for line in f:
@@ -99,6 +109,13 @@ def absorb(run, wd, name, label, r, rejects, uni, tok, keep_samples=2):
                 key = "incomplete"
             outcomes[key] = outcomes.get(key, 0) + 1
             kinds[rec.get("kind", "?")] = kinds.get(rec.get("kind", "?"), 0) + 1
+            if classify:
+                cell = classify(rec, key)
+                cells[cell] = cells.get(cell, 0) + 1
+                slowest.append((rec.get("ms", 0), rec["id"]))
+                if len(slowest) > 64:
+                    slowest.sort(reverse=True)
+                    del slowest[3:]
             if tok:
                 if rec.get("ntok", 1) >= 1 and rec["input"] != "":
                     nontrivial += 1
@@ -113,7 +130,7 @@ def absorb(run, wd, name, label, r, rejects, uni, tok, keep_samples=2):
             elif (label, key) not in run.sample_keys and keep_samples:
                 # one sample per (universe, outcome): the first input with that outcome
                 run.sample_keys.add((label, key))
-                run.samples.append({"universe": label, "id": rec["id"], "input": rec["input"] if tok else None,
+                run.samples.append({"universe": label, "id": rec["id"], "input": (rec["input"][:600] or None) if (tok or fam) else None,
                                     "events": [e["e"] + (":" + e["r"] + ":" + e["st"] if e["e"] == "ret" else "") for e in evs]})
     if n != uni["records"]:
         vlib.tool_error("%s: TLC saw %d records, the trace has %d" % (name, uni["records"], n))
@@ -141,6 +158,9 @@ def absorb(run, wd, name, label, r, rejects, uni, tok, keep_samples=2):
         u["outcomes"][k] = u["outcomes"].get(k, 0) + v
     for k, v in kinds.items():
         u["kinds"][k] = u["kinds"].get(k, 0) + v
+    if cells:
+        u["cells"] = cells
+        u["slowest_ms"] = [{"ms": ms, "id": i} for ms, i in sorted(slowest, reverse=True)[:3]]
     return n
 
 
@@ -200,6 +220,118 @@ def case_universe(run, wd, args, name, label, env=None, chunk=100000):
     return s
 
 
+# --------------------------------------------------------------------------- TLA+-defined families of structured programs
+
+def emit_family(wd, fam):
+    """TLC (MC_Families) prints every case of SyltPipeline!FamCase(fam, .); returns (size by TLC, path of the case file)."""
+    twd = os.path.join(wd, "tlc-emit-" + fam)
+    os.makedirs(twd, exist_ok=True)
+    r = vlib.tlc("MC_Families", wd=twd, env={"FAM": fam, "FIRST": 1, "LAST": 10 ** 9}, tags=("CASE", "FAMILY"), workers=2,
+                 coverage=False, timeout=900, xmx="4g", out_file=os.path.join(wd, "tlc-emit-%s.out" % fam))
+    vlib.require_tlc_ok(r, "MC_Families/" + fam)
+    size = None
+    cases = {}
+    for tag, p in r.records:
+        if tag == "FAMILY":
+            size = p["size"]
+        else:
+            cases[p["idx"]] = p
+    if size is None or sorted(cases) != list(range(1, size + 1)):
+        vlib.tool_error("MC_Families/%s: TLC says the family has %r cases but printed %d" % (fam, size, len(cases)))
+    out = []
+    ids = set()
+    for k in range(1, size + 1):
+        p = cases[k]
+        names = [f["name"] for f in p["files"]]
+        if names[0] != "main.sy" or names[1:] != sorted(set(names[1:])) or "main.sy" in names[1:]:
+            vlib.tool_error("MC_Families/%s: case %d: files must be main.sy followed by the others in name order: %r" % (fam, k, names))
+        ids.add(p["id"])
+        out.append({"id": p["id"], "kind": "fam:" + fam, "base": "", "files": {f["name"]: f["text"] for f in p["files"]},
+                    "main": "main.sy", "no_std": p["nostd"], "corpus": False})
+    if len(ids) != size:
+        vlib.tool_error("MC_Families/%s: case ids are not unique" % fam)
+    path = os.path.join(wd, "fam-%s.src.ndjson" % fam)
+    vlib.write_ndjson(path, out)
+    return size, path
+
+
+def fam_cell(rec, key):
+    """guard cell of a family record: what the case is meant to be x what happened"""
+    parts = rec["id"].split(":")
+    fam = parts[0]
+    if fam in ("nest", "nestraw", "nestsolo"):
+        return parts[-1] + "/" + key                       # ok|err planted at the innermost level
+    if fam == "place":
+        what = parts[1].split("@")[0]
+        group = "import" if what in ("use", "fromuse") else "decl" if what in ("blob", "enum", "external") else "inner"
+        return group + "/" + key
+    if fam == "cyc":
+        clean = parts[4] == "none" or (parts[1] == "self" and parts[4] == "othersonly")      # no file has a syntax error
+        return ("clean" if clean else "broken") + "/" + key
+    return "any/" + key
+
+
+# cell -> least share of the family's finished runs of that intent that must have this outcome (reach the phase they are made for)
+FAMILY_GUARDS = {
+    "nest": (("ok/ok-compile", "ok/", 0.95), ("err/err-compile", "err/", 0.95)),
+    "nestraw": (("ok/ok-compile", "ok/", 0.95), ("err/err-compile", "err/", 0.95)),
+    "nestsolo": (("ok/ok-compile", "ok/", 0.95), ("err/err-compile", "err/", 0.95)),
+    "place": (("decl/err-compile", "decl/", 0.95), ("inner/err-parse", "inner/", 0.95)),
+    "cyc": (("broken/err-parse", "broken/", 0.95), ("clean/ok-compile", "clean/", 0.95)),
+    "selfty": (("any/err-compile", "any/", 0.80),),
+}
+
+
+NEST_CLASS = {"ifbody": "if", "ifcond": "if", "elifbody": "if", "elifcond": "if", "elsebody": "if",
+              "casearm": "case", "caseelse": "case", "casescrut": "case", "fndef": "fn", "iife": "fn",
+              "loopdo": "block", "loopbare": "block", "doblock": "block"}
+
+
+def fam_site(case_id):
+    """construct class of a family member, used where a crash site would stand in the signature of a hang:
+    nest-if | nest-case | nest-fn | nest-block | nest-expr, or the family name"""
+    parts = case_id.split(":")
+    if parts[0] != "nest":
+        return parts[0]
+    classes = [NEST_CLASS.get(w, "expr") for w in parts[1].split("/")]
+    for c in ("if", "case", "fn", "block"):
+        if c in classes:
+            return "nest-" + c
+    return "nest-expr"
+
+
+def family_universes(run, wd):
+    """Emit (TLC), record (c07), validate (TLC re-derives id, text and std flag of every record from its index)."""
+    with concurrent.futures.ThreadPoolExecutor(max_workers=3) as ex:
+        emitted = dict(zip(FAMILIES, ex.map(lambda f: emit_family(wd, f), FAMILIES)))
+    summaries = {}
+    for fam in FAMILIES:
+        summaries[fam] = record_universe(wd, ["cases", emitted[fam][1]], "fam-" + fam)
+        note_isolation(run, summaries[fam])
+    with concurrent.futures.ThreadPoolExecutor(max_workers=3) as ex:
+        futs = {fam: ex.submit(tlc_validate, wd, "fam-" + fam, "fam." + fam, 0, 4, 3000, "tlc-fam-" + fam) for fam in FAMILIES}
+        for fam in FAMILIES:
+            r, rejects, uni = futs[fam].result()
+            label = "fam." + fam
+            absorb(run, wd, "fam-" + fam, label, r, rejects, uni, tok=False, keep_samples=2, fam=True, classify=fam_cell)
+            size = emitted[fam][0]
+            if not (uni["total"] == size and uni["first"] == 1 and uni["last"] == size and uni["records"] == size):
+                vlib.tool_error("%s: validated %r but TLC says the family is 1..%d" % (label, uni, size))
+            run.universes[label]["exhaustive_total_by_tlc"] = size
+            run.universes[label]["notrun"] = summaries[fam].get("notrun", 0)
+
+
+def family_guards(run):
+    for fam, guards in FAMILY_GUARDS.items():
+        cells = run.universes["fam." + fam].get("cells", {})
+        for cell, prefix, share in guards:
+            finished = sum(v for k, v in cells.items() if k.startswith(prefix) and not k.endswith("/incomplete"))
+            total = sum(v for k, v in cells.items() if k.startswith(prefix))
+            if total < 8 or cells.get(cell, 0) < share * finished or finished == 0:
+                vlib.tool_error("vacuity: family %s: only %d of %d finished runs (%d cases) are %s" % (
+                    fam, cells.get(cell, 0), finished, total, cell))
+
+
 # --------------------------------------------------------------------------- verdicts
 
 def case_of(label, rec, case):
@@ -239,9 +371,17 @@ def add_verdicts(run, wd, verdicts):
     """Group rejected runs by (failure class, panic site of THIS run), minimise one deterministic
     representative per group, and give every member the signature computed from the minimal input."""
     groups = {}
+    notrun = [m for m in run.rejected if m[2]["why"] == "notrun"]
+    if notrun and not any(m[2]["why"] == "timeout" for m in run.rejected):
+        vlib.tool_error("%d inputs were not run although no timeout was recorded" % len(notrun))
+    run.notrun = len(notrun)
     for label, rec, rej, case in run.rejected:
         why = rej["why"]
+        if why == "notrun":
+            continue            # nothing was observed for these: the recorder stopped after too many timeouts (reported with them)
         site = site_of(rec.get("pmsg", "")) if why in ("panic", "render_panic") else ""
+        if not site and rec.get("kind", "").startswith("fam:"):
+            site = fam_site(rec["id"])          # hangs and aborts have no crash site: group them by construct class
         groups.setdefault((why, site), []).append((label, rec, rej, case))
     reports = []
     for gi, ((why, site), members) in enumerate(sorted(groups.items())):
@@ -252,6 +392,8 @@ def add_verdicts(run, wd, verdicts):
                 u = "proj"
             if u.startswith("mut"):
                 u = "mut-sys" if "-sys:" in rec["id"] else "mut"
+            if u.startswith("fam."):
+                u = "fam"
             return (UNIVERSE_PRIORITY.get(u, 9), rec.get("ntok", 10 ** 6), rec["id"])
         members.sort(key=prio)
         label, rec, rej, case = members[0]
@@ -263,10 +405,16 @@ def add_verdicts(run, wd, verdicts):
             # protocol breaches that are no crash: the recorder's minimiser only knows crash classes
             skel, mini, site_file = rec["kind"], orig, ""
         else:
-            skel, mini, site_file = "unminimised:" + rec["kind"], orig, site.rsplit("/", 1)[-1].split(":")[0]
+            # (family members: the id spells the construct, position and class the case was built from)
+            skel = "unminimised:" + (rec["id"] if rec.get("kind", "").startswith("fam:") else rec["kind"])
+            mini, site_file = orig, site.rsplit("/", 1)[-1].split(":")[0]
+        if not site_file and rec.get("kind", "").startswith("fam:"):
+            site_file = site
         sig = "C07|%s|%s|%s" % (why, site_file or "-", skeleton_sig(skel))
         what = "run is not a complete behaviour of SyltPipeline (%s at event %d, phase %s): %s  [first of %d inputs: %s]" % (
             why, rej["ev"], rej["phase"], rec.get("pmsg", "")[:160], len(members), rec["id"])
+        if why == "timeout" and run.notrun:
+            what += "  [the recorder stopped after 8 timeouts per universe: %d inputs were not run]" % run.notrun
         for (l2, r2, j2, c2) in members:
             verdicts.add(sig, what, {"universe": label, "minimal_case": mini, "skeleton": skel, "original_id": rec["id"],
                                      "original_case": orig if len(json.dumps(orig)) < 20000 else {"id": orig["id"]},
@@ -338,6 +486,46 @@ def negative_controls(wd, tier):
     return rejected + len(planted)
 
 
+def family_negative_controls(wd):
+    """The binding of the TLA+-defined families: (a) a recorded hang / an input that was never run must be rejected with
+    its class, (b) a record whose text, id or std flag is not FamCase(family, idx) must make the validation fail."""
+    recs = vlib.read_ndjson(os.path.join(wd, "fam-nestsolo.trace.ndjson"))
+    incomplete = {k for k, r in enumerate(recs, 1) if r["ev"][-1]["e"] != "finish"}      # rejected already in this run
+    if len(recs) < 20 or incomplete & set(range(1, 21)):
+        return 0            # the family itself is being rejected in this run: the controls are calibrated for complete runs
+    base = json.dumps(recs)
+    planted = {5: "timeout", 7: "notrun", 9: "abort"}
+    cur = json.loads(base)
+    for k, why in planted.items():
+        cur[k - 1]["ev"] = ([{"e": "start", "r": "-", "n": 0, "len": 0, "st": "-"}] if why != "notrun" else []) + \
+                           [{"e": why, "r": "-", "n": 0, "len": 0, "st": "-"}]
+    vlib.write_ndjson(os.path.join(wd, "neg-fam-events.trace.ndjson"), cur)
+    r, rejects, uni = tlc_validate(wd, "neg-fam-events", "fam.nestsolo", 0, workers=2)
+    got = {k: p["why"] for k, p in rejects.items() if k not in incomplete}
+    if got != planted:
+        vlib.tool_error("negative control accepted: planted %r in family records, TLC rejected %r" % (planted, got))
+    n = len(planted)
+    for field, corrupt in (("input", lambda r: dict(r, input=r["input"].replace("q := 0", "q := 1", 1))),
+                           ("id", lambda r: dict(r, id=r["id"] + "x")),
+                           ("nostd", lambda r: dict(r, nostd=not r["nostd"]))):
+        cur = json.loads(base)
+        cur[10] = corrupt(cur[10])
+        if cur[10] == recs[10]:
+            vlib.tool_error("negative control vacuous: could not corrupt field %s of a family record" % field)
+        name = "neg-fam-" + field
+        vlib.write_ndjson(os.path.join(wd, name + ".trace.ndjson"), cur)
+        twd = os.path.join(wd, "tlc-" + name)
+        os.makedirs(twd, exist_ok=True)
+        r = vlib.tlc("MC_TracePipeline", cfg="MC_TracePipeline.cfg", wd=twd,
+                     env={"TRACE": os.path.join(wd, name + ".trace.ndjson"), "UNIVERSE": "fam.nestsolo", "MAXLEN": 0},
+                     tags=("REJECT", "UNIVERSE"), workers=2, timeout=600, xmx="4g", out_file=os.path.join(wd, "tlc-" + name + ".out"))
+        log = open(r.log, encoding="utf-8", errors="replace").read()
+        if r.ok or "universe mismatch at record" not in log:
+            vlib.tool_error("negative control accepted: a family record with a corrupted %s passed the re-derivation by TLC" % field)
+        n += 1
+    return n
+
+
 # --------------------------------------------------------------------------- main
 
 def spec_model(wd, ev):
@@ -394,14 +582,19 @@ def run(ctx):
     for u, maxlen in plan:
         tok_universe(run_, wd, u, maxlen, chunk, parallel=4)
     case_universe(run_, wd, ["proj"], "proj", "projects")
+    family_universes(run_, wd)
     nmut, rounds = (40000, 1) if quick else (80000, 5)
     for i in range(rounds):
         env = {"VERIF_SEED": str(vlib.seed() * 1000 + i)} if rounds > 1 else None
         s = case_universe(run_, wd, ["mut", nmut], "mut-%d" % i, "mutations", env=env)
-        if s["records"] < nmut * 0.9:
+        if s["records"] < nmut * 0.9 and not s.get("notrun"):
             vlib.tool_error("mutation generator produced only %d of %d cases" % (s["records"], nmut))
 
-    # 3. vacuity guards
+    # 3. verdicts (before the guards: the guards are calibrated for a tree on which the property holds; once a violation
+    #    is on record vlib.tool_error reports it instead of the failing guard)
+    reports = add_verdicts(run_, wd, verdicts)
+
+    # 4. vacuity guards
     for a in TRACE_ACTIONS:
         if run_.coverage.get(a, 0) == 0:
             vlib.tool_error("vacuity: trace action %s never taken" % a)
@@ -418,28 +611,29 @@ def run(ctx):
                 vlib.tool_error("vacuity: universe %s has only %d runs with outcome %s" % (label, oc.get(key, 0), key))
     if len(run_.universes["projects"]["kinds"]) < 60:
         vlib.tool_error("vacuity: fewer than 60 project families")
-
-    # 4. verdicts
-    reports = add_verdicts(run_, wd, verdicts)
+    family_guards(run_)
 
     # 5. negative controls (binding demonstration)
-    neg = negative_controls(wd, tier)
+    neg = negative_controls(wd, tier) + family_negative_controls(wd)
 
     ev.set(evaluations=run_.records, distinct_nontrivial=run_.distinct_nontrivial,
            states=run_.states + m.distinct, transitions=run_.transitions + m.generated,
            traces_validated_against_impl=run_.records,
            rule="inputs: every token string over the 20-spelling alphabet Tok20 and the 31-spelling alphabet Tok31 up to the lengths listed "
                 "under universes (framed as top-level text, as entry-point body, or raw), index-addressed with completeness decided by TLC; "
-                "the project families x module variants x {std,no-std}; "
+                "the TLA+-defined families of structured programs fam.* (SyltPipeline!FamCase, emitted and re-derived by TLC: constructs "
+                "nested in themselves and in each other to depth 8/16/24/32, misplaced statements, import cycles with syntax errors, "
+                "self-referential types in type errors); the project families x module variants x {std,no-std}; "
                 "and seeded corpus mutations (20 kinds); a case counts as distinct+non-trivial when its content hash (files, main, flags) "
                 "is new in this run and its main file has >=1 token",
            samples=run_.samples[:30], universes=run_.universes, outcomes=run_.outcomes,
            trace_actions={k: v for k, v in run_.coverage.items()}, isolation=run_.isolation,
-           rejected_runs=len(run_.rejected), violation_reports=reports,
+           rejected_runs=len(run_.rejected), not_run_after_timeouts=run_.notrun, violation_reports=reports,
            negative_controls_rejected=neg, known_findings_hit=verdicts.known_hits,
-           exhaustive=False, exhaustive_parts=[k for k in run_.universes if k.startswith("tok")])
+           exhaustive=False, exhaustive_parts=[k for k in run_.universes if k.startswith("tok") or k.startswith("fam.")])
     ev.assume("TLC, SyltPipeline and the recorder c07 (maps API outcomes to events) are trusted",
-              "hangs are detected by budgets (15 s stall in a batch, then 60 s alone), not proved absent",
+              "hangs are detected by budgets (15 s stall in a batch, then 60 s alone), not proved absent; after 8 recorded timeouts in one "
+              "universe the recorder stops and the remaining inputs of that universe are `notrun` (rejected by TLC, reported with the timeouts)",
               "nesting depth of generated inputs is bounded by 40; workers run with a 512 MB stack and a 6 GB address-space limit",
               "bytes written before a failure are recorded but not constrained by C07 (see C03/C06)")
     rc = verdicts.finish()
